@@ -361,6 +361,8 @@ c = M.contract(f"{EMT}.wait_result_broken_or_wakeup", props=["C02", "C07"])
 c.param("self", T.Ref(EMT))
 c.returns(T.Tup(T.Union(T.NoneT, T.Int, T.Ref("_ResultItem"), T.Exc()), T.Bool, T.Exc(nullable=True)))
 c.ensures("classify/broken-comes-with-its-error", "implies(result[1], result[2] is not None)", prop="C02")
+c.ensures("classify/healthy-item-is-a-result-or-a-pid",
+          "implies(not result[1], result[0] is None or is_int(result[0]) or isinstance_(result[0], _ResultItem))", prop="C02")
 W = "log_arg('wait', 0, 0)"
 READY = "log_arg('wait', 0, 1)"
 RR = "self.result_queue._reader"
@@ -536,3 +538,115 @@ i = M.invariant(f"{EMT}.join_executor_internals", 0, "while True:")
 i.inv("removed-are-joined", "forall(Int, lambda k: implies(old(k in self.processes) and not (k in self.processes), G.joined[old(self.processes[k])]))")
 i.inv("remaining-are-original", "forall(Int, lambda k: implies(k in self.processes, old(k in self.processes) and self.processes[k] is old(self.processes[k])))")
 i.inv("joined-only-grows", "forall(Ref('Process'), lambda q: implies(old(G.joined[q]), G.joined[q]))")
+
+# ---------------------------------------------------------------- run (C02, C05)
+TB = "call:_ExecutorManagerThread.terminate_broken"
+WAITC = "call:_ExecutorManagerThread.wait_result_broken_or_wakeup"
+PRI = "call:_ExecutorManagerThread.process_result_item"
+ISD = "call:_ExecutorManagerThread.is_shutting_down"
+FLAGC = "call:_ExecutorManagerThread.flag_executor_shutting_down"
+JOINC = "call:_ExecutorManagerThread.join_executor_internals"
+c = M.contract(f"{EMT}.run", props=["C02", "C05"])
+c.param("self", T.Ref(EMT))
+c.ensures("run/leaves-only-when-broken-or-drained",
+          f"tail((log_count('{TB}') == 1 and log_arg('{WAITC}', -1, 0)[1] == True and log_arg('{TB}', 0, 2) is log_arg('{WAITC}', -1, 0)[2] "
+          f"and log_count('{PRI}') == 0 and log_count('{JOINC}') == 0) or "
+          f"(log_count('{TB}') == 0 and log_arg('{WAITC}', -1, 0)[1] == False and log_arg('{ISD}', -1, 0) == True and "
+          f"len(self.pending_work_items) == 0 and log_count('{JOINC}') == 1 and log_count('{FLAGC}') == 1 and "
+          f"log_before('{FLAGC}', '{JOINC}')))", prop=["C02", "C05"])
+c.ensures("run/last-step-dispatches-then-waits", f"tail(log_pos('call:_ExecutorManagerThread.add_call_item_to_queue', 0) == 0 and log_pos('{WAITC}', 0) == 1)")
+c.raises("run/only-from-termination-steps", "BaseException")
+c.modifies_anything()
+c.assumes("A-atomic")
+i = M.invariant(f"{EMT}.run", 0, "while True:")
+i.inv("trivial", "True")
+i.iter_post("continues-only-when-not-broken", f"log_count('{TB}') == 0 and log_arg('{WAITC}', 0, 0)[1] == False and log_count('{JOINC}') == 0", prop="C02")
+i.iter_post("every-received-item-is-processed",
+            f"ite(log_arg('{WAITC}', 0, 0)[0] is None, log_count('{PRI}') == 0, log_count('{PRI}') == 1 and "
+            f"log_arg('{PRI}', 0, 2) is log_arg('{WAITC}', 0, 0)[0])", prop=["C02", "C03"])
+i.iter_post("keeps-running-while-work-is-pending",
+            f"implies(log_count('{FLAGC}') == 1, len(self.pending_work_items) > 0) and "
+            f"implies(log_count('{FLAGC}') == 0, log_arg('{ISD}', -1, 0) == False)", prop="C05")
+
+# ---------------------------------------------------------------- submit / _ensure_executor_running / shutdown
+c = M.contract(f"{PPE}._start_executor_manager_thread", props=["C05"])
+c.param("self", T.Ref(PPE))
+c.ensures("start/manager-exists-after", "self._executor_manager_thread is not None")
+c.ensures("start/keeps-existing-manager", "implies(old(self._executor_manager_thread) is not None, self._executor_manager_thread is old(self._executor_manager_thread))")
+c.modifies("self._executor_manager_thread", f"glob:{PE}.process_pool_executor_at_exit")
+c.note("trusted summary of thread creation: the constructor of _ExecutorManagerThread and Thread.start are externals")
+c.trusted_summary = True
+
+c = M.contract(f"{PPE}._ensure_executor_running", props=["C08", "C07"])
+c.param("self", T.Ref(PPE))
+c.rely("registered-pids-are-live-children", "forall(Int, lambda k: implies(k in self._processes, G.pid_live[k]))", "A-pids")
+c.requires("not-shut-down", "self._processes_management_lock is not None and self._call_queue is not None and self._result_queue is not None")
+c.ensures("ensure/tops-up-to-max-workers", "len(self._processes) >= self._max_workers", prop=["C08", "C07"])
+c.ensures("ensure/never-above-the-larger-of-old-and-max", "len(self._processes) <= max(old(len(self._processes)), self._max_workers)", prop="C08")
+c.ensures("ensure/manager-running", "self._executor_manager_thread is not None")
+c.at_call(f"{PE}:{PPE}._adjust_process_count", "under-management-lock", "held(self._processes_management_lock)", prop="C08")
+c.ensures("ensure/adjusts-under-the-management-lock",
+          "log_arg('acquire', 0, 0) is self._processes_management_lock and log_pos('acquire', 0) == 0 and log_tags()[-1] == 'release'", prop="C08")
+c.raises_only("ensure/no-exception")
+c.modifies("contents(self._processes)", "G.started", "G.pid_live", "self._executor_manager_thread", f"glob:{PE}.process_pool_executor_at_exit")
+
+c = M.contract(f"{PPE}.submit", props=["C02", "C03", "C05", "C07", "C08"])
+c.param("self", T.Ref(PPE)).param("fn", T.Obj).varargs("args").kwargs("kwargs")
+c.rely("registered-pids-are-live-children", "forall(Int, lambda k: implies(k in self._processes, G.pid_live[k]))", "A-pids")
+c.rely("ids-queued-are-pending", "forall(Int, lambda k: implies(G.work_ids[k], k in self._pending_work_items))", "A-atomic")
+c.rely("ids-below-the-counter", "forall(Int, lambda k: implies(k in self._pending_work_items, k < self._queue_count))", "A-atomic")
+c.rely("flags-lock-is-the-shutdown-lock", "self._flags.shutdown_lock is self._shutdown_lock", "A-alias")
+c.rely("healthy-executor-has-its-internals", "implies(not self._flags.shutdown, self._processes_management_lock is not None and self._call_queue is not None "
+       "and self._result_queue is not None and self._executor_manager_thread_wakeup is not None)", "A-atomic")
+UNCHANGED = ("self._queue_count == old(self._queue_count) and len(self._pending_work_items) == old(len(self._pending_work_items)) and "
+             "G.work_ids == old(G.work_ids) and len(self._processes) == old(len(self._processes)) and log_count('call:_ThreadWakeup.wakeup') == 0 "
+             "and log_count('call:ProcessPoolExecutor._ensure_executor_running') == 0")
+c.raises("submit/broken-first-and-nothing-touched", "BaseException",
+         post=f"ite(old(self._flags.broken) is not None, exc is old(self._flags.broken) and {UNCHANGED}, "
+              f"ite(old(self._flags.shutdown), exc_is(exc, 'ShutdownExecutorError') and {UNCHANGED}, "
+              f"ite(old(_global_shutdown), exc_is(exc, 'RuntimeError') and {UNCHANGED}, True)))", prop=["C02", "C05"])
+c.ensures("submit/only-on-a-healthy-executor", "old(self._flags.broken) is None and not old(self._flags.shutdown) and not old(_global_shutdown)", prop=["C02", "C05"])
+c.ensures("submit/fresh-id-maps-to-own-work-item",
+          "self._queue_count == old(self._queue_count) + 1 and old(self._queue_count) in self._pending_work_items and "
+          "not old(old(self._queue_count) in self._pending_work_items) and "
+          "self._pending_work_items[old(self._queue_count)].future is result and self._pending_work_items[old(self._queue_count)].fn is fn and "
+          "self._pending_work_items[old(self._queue_count)].args is args and self._pending_work_items[old(self._queue_count)].kwargs is kwargs and fresh(result)", prop="C03")
+c.ensures("submit/other-pending-kept",
+          "forall(Int, lambda k: implies(k != old(self._queue_count), (k in self._pending_work_items) == old(k in self._pending_work_items) and "
+          "self._pending_work_items[k] is old(self._pending_work_items[k])))", prop="C03")
+c.ensures("submit/id-queued-then-manager-woken-then-pool-topped-up",
+          "G.work_ids[old(self._queue_count)] and log_count('wq_put') == 1 and log_count('call:_ThreadWakeup.wakeup') == 1 and "
+          "log_count('call:ProcessPoolExecutor._ensure_executor_running') == 1 and "
+          "log_before('wq_put', 'call:_ThreadWakeup.wakeup') and log_before('call:_ThreadWakeup.wakeup', 'call:ProcessPoolExecutor._ensure_executor_running')",
+          prop=["C03", "C07", "C08"])
+c.ensures("submit/rep-invariants-kept", "forall(Int, lambda k: implies(G.work_ids[k], k in self._pending_work_items)) and "
+          "forall(Int, lambda k: implies(k in self._pending_work_items, k < self._queue_count))", prop="C03")
+c.ensures("submit/under-the-shutdown-lock", "log_arg('acquire', 0, 0) is self._flags.shutdown_lock and log_pos('acquire', 0) == 0", prop="C03")
+c.ensures("submit/pool-topped-up", "len(self._processes) >= self._max_workers", prop=["C07", "C08"])
+c.modifies("self._queue_count", "contents(self._pending_work_items)", "G.work_ids", "contents(self._processes)", "G.started", "G.pid_live",
+           "self._executor_manager_thread", f"glob:{PE}.process_pool_executor_at_exit")
+c.cover("healthy", "True")
+c.twin("submit/only-on-a-healthy-executor", "old(self._flags.shutdown)")
+
+c = M.contract(f"{PPE}.shutdown", props=["C05", "C06", "C20"])
+c.param("self", T.Ref(PPE)).param("wait", T.Bool, default=VBool(True)).param("kill_workers", T.Bool, default=VBool(False))
+c.rely("flags-lock-is-the-shutdown-lock", "self._flags.shutdown_lock is self._shutdown_lock and self._shutdown_lock is not _global_shutdown_lock", "A-alias")
+FLAGSD = "call:_ExecutorFlags.flag_as_shutting_down"
+c.ensures("shutdown/flags-first-with-the-callers-kill-workers",
+          f"log_pos('{FLAGSD}', 0) == 0 and log_arg('{FLAGSD}', 0, 1) is self._flags and log_arg('{FLAGSD}', 0, 2) == kill_workers and self._flags.shutdown", prop=["C05", "C06"])
+c.ensures("shutdown/wakes-the-manager-under-the-shutdown-lock",
+          "implies(old(self._executor_manager_thread_wakeup) is not None, log_count('call:_ThreadWakeup.wakeup') == 1 and "
+          "log_arg('call:_ThreadWakeup.wakeup', 0, 1) is old(self._executor_manager_thread_wakeup) and "
+          f"log_before('{FLAGSD}', 'call:_ThreadWakeup.wakeup') and "
+          "ordered('acquire', lambda l: l is self._shutdown_lock, 'call:_ThreadWakeup.wakeup', lambda r, w: True) and "
+          "exists_event('acquire', lambda l: l is self._shutdown_lock))", prop=["C05", "C06"])
+c.ensures("shutdown/waits-for-the-manager-when-asked",
+          "implies(wait and old(self._executor_manager_thread) is not None, log_count('thread_join') == 1 and "
+          "log_arg('thread_join', 0, 0) is old(self._executor_manager_thread) and log_before('call:_ThreadWakeup.wakeup', 'thread_join'))", prop=["C05", "C06"])
+c.ensures("shutdown/no-join-when-not-waiting", "implies(not wait, log_count('thread_join') == 0)", prop="C05")
+c.ensures("shutdown/drops-fd-holding-references",
+          "self._executor_manager_thread is None and self._executor_manager_thread_wakeup is None and self._call_queue is None and "
+          "self._result_queue is None and self._processes_management_lock is None", prop="C20")
+c.raises("shutdown/only-pipe-errors-from-wakeup", "Exception")
+c.modifies("self._flags.shutdown", "self._flags.kill_workers", "self._executor_manager_thread", "self._executor_manager_thread_wakeup",
+           "self._call_queue", "self._result_queue", "self._processes_management_lock")
